@@ -216,7 +216,18 @@ def rule_propagation(ctx, crate, rule="R-TAB-PROPAGATION"):
             ok = ok and bool(wsl.params()) and not wsl.consts()
             # unconditional within its function, modulo the variant match
             if adt in ("state::ProgressState",):
-                ok = ok and x.must_pass([0], [c.bb])
+                mp = x.must_pass([0], [c.bb])
+                if not mp and x.in_loop(c.bb):
+                    # `for text in [message, prefix] { text.set_tab_width(w) }`: a loop over a fixed array that holds the field; the loop
+                    # itself is on every path (its exits are checked below)
+                    loop_ = {c.bb} | {y for y in x.reach_after(c.bb) if c.bb in x.reach_after(y)}
+                    for nk in x.calls(r"std::iter::Iterator::next"):
+                        if nk.bb not in loop_ or not x.must_pass([0], [nk.bb]):
+                            continue
+                        for ic in x.slice_args(nk, [0]).calls:
+                            if ic.matches(r"std::iter::IntoIterator::into_iter") and ic.args and (ic.args[0].get("place", {}).get("ty") or "").startswith("["):
+                                mp = True
+                ok = ok and mp
             else:
                 ok = ok and x.in_loop(c.bb) and K.in_variant_region(x, crate, c.bb, adt, {v})
         # a holder reached inside a loop over a collection (template parts, custom keys) is reached for *every* element: the loop
